@@ -399,3 +399,40 @@ Proof.
   - specialize (C' r Hlt). specialize (D ltac:(lia)). lia.
   - specialize (C r' Hgt). specialize (D' ltac:(lia)). lia.
 Qed.
+
+(* ------------------------------------------------------------------ mergingIterator *)
+(** first() is the least position of all merged iterators (None = MaxUint32 when all are exhausted); next(limit) keeps,
+    in every iterator, exactly the positions above the limit *)
+Theorem merging_iter_spec : forall (ls : list (list nat)), Forall inc ls ->
+  match mfirst ls with
+  | None => forall l, In l ls -> l = []
+  | Some m => (exists l, In l ls /\ In m l) /\ forall l p, In l ls -> In p l -> m <= p
+  end /\
+  forall limit, Forall inc (mnext limit ls) /\
+     forall p, (exists l, In l (mnext limit ls) /\ In p l) <-> (limit < p /\ exists l, In l ls /\ In p l).
+Proof.
+  intros ls Hls. split.
+  - induction ls as [|l ls IH]; simpl; [intros l []|].
+    inversion Hls as [|? ? Hl Hr]; subst. specialize (IH Hr).
+    destruct l as [|x r]; simpl.
+    + destruct (mfirst ls) as [m|].
+      * destruct IH as [[l0 [A B]] C]. split; [exists l0; auto|]. intros l p [<-|Hin] Hp; [destruct Hp | eauto].
+      * intros l [<-|Hin]; auto.
+    + destruct (mfirst ls) as [m|]; simpl.
+      * destruct IH as [[l0 [A B]] C]. split.
+        -- destruct (le_lt_dec x m); [exists (x :: r); split; [auto|]; left; lia | exists l0; split; [auto|]; replace (Nat.min x m) with m by lia; exact B].
+        -- intros l p [<-|Hin] Hp.
+           ++ destruct Hp as [<-|Hp]; [lia|]. pose proof (inc_lt x r p Hl Hp). lia.
+           ++ pose proof (C l p Hin Hp). lia.
+      * split; [exists (x :: r); split; [auto | left; reflexivity]|]. intros l p [<-|Hin] Hp.
+        -- destruct Hp as [<-|Hp]; [lia|]. pose proof (inc_lt x r p Hl Hp). lia.
+        -- rewrite (IH l Hin) in Hp. destruct Hp.
+  - intro limit. split.
+    + unfold mnext. apply Forall_forall. intros l Hl. apply in_map_iff in Hl. destruct Hl as [l0 [<- H0]]. apply hnext_inc.
+      rewrite Forall_forall in Hls. auto.
+    + intro p. unfold mnext. rewrite Forall_forall in Hls. split.
+      * intros [l [Hl Hp]]. apply in_map_iff in Hl. destruct Hl as [l0 [<- H0]]. rewrite hnext_filter in Hp by auto.
+        apply filter_In in Hp. destruct Hp as [Hp Hlt]. split; [lia|]. exists l0. auto.
+      * intros [Hlt [l0 [H0 Hp]]]. exists (hnext limit l0). split; [apply in_map; auto|]. rewrite hnext_filter by auto.
+        apply filter_In. split; [auto|lia].
+Qed.
